@@ -1,0 +1,141 @@
+//go:build verif
+
+package fasthttp
+
+// C07 / C08, body readers of http.go: a positive limit bounds what is buffered, and reading a body never panics
+// (no index or slice out of range, no negative make, no integer overflow). Checked by /verif/gocv
+// (comment-only; compiled to nothing).
+
+// roundUpForSliceCap smears bits (x |= x >> k); its body is outside the integer fragment of the generator.
+// Trusted: the result is never below the request.
+//@ func roundUpForSliceCap results c
+//@   trusted
+//@   pure
+//@   ensures c >= n || (n <= 0 && c == 0)
+//@   ensures c >= 0
+
+//@ func appendBodyFixedSize results out err
+//@   property C07 C08
+//@   requires[size] n >= 0 && len(dst) + n <= MaxInt
+//@   modifies dst, r
+//@   ensures[storage] reuses(out, dst)
+//@   ensures[exact-on-success] err == nil ==> len(out) == len(dst) + n
+//@   ensures[short-on-error] err != nil ==> len(dst) <= len(out) && len(out) < len(dst) + n
+//@   loop 1:
+//@     invariant[storage] reuses(dst, dst)
+//@     invariant[progress] len(old(dst)) <= offset && offset < dstLen && len(dst) == dstLen && dstLen == len(old(dst)) + n
+//@     decreases dstLen - offset
+
+//@ func readBody results out err
+//@   property C07 C08
+//@   requires[size] contentLength >= 0 && len(dst) + contentLength <= MaxInt
+//@   modifies dst, r
+//@   ensures[limit] maxBodySize > 0 && contentLength > maxBodySize ==> err == ErrBodyTooLarge && len(out) == len(dst)
+//@   ensures[bounded] len(out) <= len(dst) + contentLength
+//@   ensures[storage] reuses(out, dst)
+
+//@ func readCrLf results err
+//@   property C08
+//@   modifies r
+
+//@ func parseChunkSize results n err
+//@   property C01 C07 C08
+//@   intsize 64 32
+//@   noterm
+//@   modifies r
+//@   ensures[range] err == nil ==> 0 <= n && n < pow16(maxHexIntChars)
+//@   ensures[errval] err != nil ==> n == -1
+
+//@ func readBodyChunked results out err
+//@   property C07 C08
+//@   intsize 64 32
+//@   requires[empty-dst] len(dst) == 0
+//@   requires[positive-limit] 0 < maxBodySize && maxBodySize < MaxInt / 2
+//@   modifies dst, r
+//@   ensures[limit] err == nil ==> len(out) <= maxBodySize
+//@   ensures[limit-on-error] err != nil ==> len(out) <= maxBodySize + 2
+//@   ensures[storage] reuses(out, dst)
+//@   loop 1:
+//@     invariant[within-limit] len(dst) <= maxBodySize
+//@     invariant[storage] reuses(dst, dst)
+//@     decreases maxBodySize - len(dst)
+
+//@ func readBodyIdentity results out err
+//@   property C07 C08
+//@   intsize 64 32
+//@   requires[positive-limit] 0 < maxBodySize && maxBodySize < MaxInt / 2
+//@   modifies dst, r
+//@   ensures[limit] err == nil ==> len(out) <= maxBodySize
+//@   loop 1:
+//@     invariant[within-limit] 0 <= offset && offset < len(dst) && offset <= maxBodySize
+//@     invariant[storage] reuses(dst, dst)
+//@     decreases maxBodySize - offset
+
+//@ func readBodyWithStreaming results b err
+//@   property C07 C08
+//@   requires[positive-limit] 0 < maxBodySize
+//@   requires[framed] contentLength >= -1
+//@   modifies dst, r
+//@   ensures[prefetch-bounded] len(b) <= maxBodySize && len(b) <= 8192
+//@   ensures[too-large] contentLength > maxBodySize ==> err != nil
+//@   ensures[chunked-deferred] contentLength == -1 ==> err == errChunkedStream && len(b) == 0
+
+// Request.ReadBody: with a positive limit the buffered body never exceeds it (plus the two bytes of a chunk
+// terminator on the error path); the three readers are called within their preconditions.
+//@ func Request.ReadBody results err
+//@   property C07 C08
+//@   mode skeleton
+//@   safety C08
+//@   requires[positive-limit] 0 < maxBodySize && maxBodySize < MaxInt / 2
+//@   requires[framed] contentLength >= -2
+//@   on call Request.bodyBuffer -> bb:
+//@     nohavoc
+//@     ensures bb != nil
+//@   on call bytebufferpool.ByteBuffer.Reset(bb):
+//@     nohavoc
+//@     modifies bodyBuf.B
+//@     ensures len(bodyBuf.B) == 0
+//@   on call RequestHeader.SetContentLength:
+//@     nohavoc
+//@     modifies req.Header
+//@   end
+//@   ensures[limit] err == nil ==> len(bodyBuf.B) <= maxBodySize
+
+// Response.ReadBody (client side, MaxResponseBodySize): a non-streamed body accepted without error is within the limit.
+//@ func Response.ReadBody results err
+//@   property C07 C08
+//@   mode skeleton
+//@   safety C08
+//@   stable resp.StreamBody
+//@   requires[positive-limit] 0 < maxBodySize && maxBodySize < MaxInt / 2
+//@   on call Response.bodyBuffer -> bb:
+//@     nohavoc
+//@     ensures bb != nil
+//@   on call bytebufferpool.ByteBuffer.Reset(bb):
+//@     nohavoc
+//@     modifies bodyBuf.B
+//@     ensures len(bodyBuf.B) == 0
+//@   on call ResponseHeader.ContentLength -> n:
+//@     nohavoc
+//@   on call ResponseHeader.SetContentLength:
+//@     nohavoc
+//@     modifies resp.Header
+//@   on call acquireRequestStream:
+//@     nohavoc
+//@   on call bytes.NewReader:
+//@     nohavoc
+//@   end
+//@   ensures[limit] err == nil && !resp.StreamBody ==> len(bodyBuf.B) <= maxBodySize
+
+// copyZeroAllocWithLimit (decompression / multipart helpers): with a positive limit L the reader handed to the copy is
+// an io.LimitedReader of L+1 bytes, and a copy that drained it is reported as ErrBodyTooLarge. Trusted: the copy
+// returns exactly the number of bytes the LimitedReader handed out (n plus what is left of lr.N is what lr.N was).
+//@ func copyZeroAllocWithLimit results n err
+//@   property C07
+//@   mode skeleton
+//@   on call copyZeroAlloc#2 -> m, e:
+//@     nohavoc
+//@     modifies lr.N
+//@     ensures m >= 0 && lr.N >= 0 && m + lr.N == old(lr.N)
+//@   end
+//@   ensures[limit] maxBodySize > 0 && err == nil ==> n <= maxBodySize
